@@ -154,6 +154,7 @@ func runSharded(c *Check, env *Env) *Summary {
 		go func(sh int) {
 			defer wg.Done()
 			from := 0
+			retired := 0
 			for attempt := 0; attempt < 200; attempt++ {
 				done, last, stderr, lines := runOneWorker(c, env, sh, from, -1)
 				mu.Lock()
@@ -163,6 +164,19 @@ func runSharded(c *Check, env *Env) *Summary {
 					mu.Lock()
 					mergeDone(sum, done)
 					mu.Unlock()
+					if done.Retired {
+						from = done.Last + 1
+						attempt-- // not a crash
+						retired++
+						if retired > 5000 {
+							mu.Lock()
+							sum.Complete = false
+							sum.Extra["retire_cap"] = "a shard retired more than 5000 worker processes; its remaining cases were not explored"
+							mu.Unlock()
+							return
+						}
+						continue
+					}
 					return
 				}
 				// the worker died: attribute to the case announced last
